@@ -397,3 +397,173 @@ def generic_reference(anns: Sequence[str], positionals: Sequence[Any]) -> str:
         if tv == "C" and not (all(isinstance(o, int) for o in objs) or all(isinstance(o, str) for o in objs)):
             return "no-solution-for-a-type-variable"
     return "ok"
+
+
+# ------------------------------------------------------------------ *args / **kwargs
+VP, VK = "VAR_POSITIONAL", "VAR_KEYWORD"
+
+
+class VarCallModel(CallModel):
+    """Call checking for functions with typed *args / **kwargs: the tuple / TypedDict values that
+    bind_arguments builds for them are checked against tuple[T, ...] / dict[str, T] by the container
+    model (GenericValue / SequenceValue / TypedDictValue.can_assign interpreted)."""
+
+    def __init__(self, prog: Program) -> None:
+        super().__init__(prog)
+        from . import container_model as cmod
+
+        self.am = cmod.ContainerModel(prog)
+        self.cmod = cmod
+
+    def run_var(self, params: Sequence[CParam], positionals: Sequence[Any], keywords: Dict[str, Any]) -> Any:
+        """params: (kind, has_default, annotation) named p0.. ; a VAR_POSITIONAL parameter is named
+        `args`, a VAR_KEYWORD one `kwargs`.  -> (is_error, [messages]) or ("crash", why)"""
+        am = self.am
+        self.unannotated = amod.V("AnyValue", source=Sym("AnySource.unannotated"))
+        errors: List[str] = []
+        used_any = [False]
+
+        def reset_any_used():
+            saved: List[bool] = []
+            return Obj("ContextManager", __enter__=lambda: (saved.append(used_any[0]), used_any.__setitem__(0, False))[0], __exit__=lambda exc=None: used_any.__setitem__(0, saved.pop()))
+
+        cactx = Obj("CanAssignContext", should_exclude_any=lambda: False, record_any_used=lambda: used_any.__setitem__(0, True), has_used_any_match=lambda: used_any[0], reset_any_used=reset_any_used)
+        it = am._interp(cactx)
+        cactx._attrs["make_type_object"] = lambda typ: am.type_object(typ, it)
+        attach = lambda v: am._attach(v, it) if isinstance(v, amod.V) else v  # noqa: E731
+
+        def on_error(*args: Any, **kwargs: Any) -> None:
+            m = args[0] if args else None
+            errors.append(m.label[4:] if isinstance(m, Opaque) and m.label.startswith("str:") else str(m))
+
+        ctx = Obj("CheckCallContext", visitor=None, can_assign_ctx=cactx, on_error=on_error, node=None)
+        sig_params: Dict[str, Obj] = {}
+        i = 0
+        for kind, has_default, ann in params:
+            if kind == VP:
+                name, a = "args", am.generic(tuple, [self.annotation(ann)])
+            elif kind == VK:
+                name, a = "kwargs", am.generic(dict, [am.typed(str), self.annotation(ann)])
+            else:
+                name, a = f"p{i}", self.annotation(ann)
+                i += 1
+            sig_params[name] = Obj("SigParameter", name=name, kind=Sym(f"ParameterKind.{kind}"), default=attach(am.known(1)) if has_default else None, annotation=attach(a), is_unnamed=lambda: False)
+        ret = amod.V("TypedValue", typ=bytes, literal_only=False)
+        sig = Obj(
+            "Signature", parameters=sig_params, callable=None, return_value=ret, all_typevars=set(), typevars_of_params={}, _return_key="%return", impl=None, evaluator=None,
+            allow_call=False, is_asynq=False,
+        )
+        sig._attrs["_apply_annotated_constraints"] = lambda raw_return, composites, ctx_: raw_return
+
+        def composite(args, kwargs=None):
+            return Obj("Composite", value=args[0], varname=(args[1] if len(args) > 1 else None), node=(args[2] if len(args) > 2 else None))
+
+        composite.wants_kwargs = True  # type: ignore[attr-defined]
+
+        def call_return(args, kwargs=None):
+            d = dict(zip(("return_value", "sig", "is_error", "used_any_for_match", "remaining_arguments"), args))
+            d.update(kwargs or {})
+            for k, dv in (("is_error", False), ("used_any_for_match", False), ("remaining_arguments", None), ("sig", None)):
+                d.setdefault(k, dv)
+            return Obj("CallReturn", **d)
+
+        call_return.wants_kwargs = True  # type: ignore[attr-defined]
+
+        def td_entry(args, kwargs=None):
+            d = dict(zip(("typ", "required", "readonly"), args))
+            d.update(kwargs or {})
+            d.setdefault("required", True)
+            d.setdefault("readonly", False)
+            return Obj("TypedDictEntry", **d)
+
+        td_entry.wants_kwargs = True  # type: ignore[attr-defined]
+
+        def typed_dict(args, kwargs=None):
+            items = dict(args[0])
+            extra = (kwargs or {}).get("extra_keys", args[1] if len(args) > 1 else None)
+            value_types = [e.get("typ", None) for e in items.values()] + ([extra] if extra is not None else [])
+            vt = am.unite(value_types) if value_types else amod.V("AnyValue", source=Sym("AnySource.unreachable"))
+            return attach(amod.V("TypedDictValue", typ=dict, args=(am.typed(str), vt), items=items, extra_keys=extra, extra_keys_readonly=False, literal_only=False, spec=("td", (), "open", False)))
+
+        typed_dict.wants_kwargs = True  # type: ignore[attr-defined]
+        it.funcs.update({"Composite": composite, "CallReturn": call_return, "TypedDictEntry": td_entry, "TypedDictValue": typed_dict})
+        it.funcs["CanAssignError"] = lambda args: Obj("CanAssignError", message=str(args[0]) if args else "", get_error_code=lambda: None)
+        for name, fn in self.sig_methods.items():
+            it.method_defs[("Signature", name)] = fn
+        it.module_defs["can_assign_and_used_any"] = self.can_assign_and_used_any
+        it.globals["UNANNOTATED"] = self.unannotated
+        for m in ("DEFAULT", "ARGS", "KWARGS", "UNKNOWN", "ELLIPSIS_COMPOSITE", "ELLIPSIS"):
+            it.globals[m] = Sym(m)
+        actual = Obj(
+            "ActualArguments", positionals=[(True, composite([attach(am.known(o))])) for o in positionals], star_args=None,
+            keywords={k: (True, composite([attach(am.known(o))])) for k, o in keywords.items()}, star_kwargs=None, kwargs_required=False, pos_or_keyword_params=frozenset(),
+            ellipsis=False, param_spec=None,
+        )
+        fn = self.sig_methods["check_call_preprocessed"]
+        try:
+            res = it.call_def(fn, [sig, actual, ctx], fn)
+        except Unsupported as u:
+            raise AnchorError(f"call checking with *args / **kwargs cannot be modelled: {u}")
+        except AssertionFailed as af:
+            return ("crash", f"assertion {af}")
+        except (PyRaise, ModelError) as e:
+            return ("crash", str(e))
+        if not (isinstance(res, Obj) and res._kind == "CallReturn"):
+            raise AnchorError(f"check_call_preprocessed returned {res!r} in the model")
+        return bool(res.get("is_error", None)), errors
+
+
+def var_reference(params: Sequence[CParam], positionals: Sequence[Any], keywords: Dict[str, Any]) -> str:
+    named = [(k, d, a) for k, d, a in params if k not in (VP, VK)]
+    vp = next((a for k, _, a in params if k == VP), "<none>")
+    vk = next((a for k, _, a in params if k == VK), "<none>")
+    pos_params = [i for i, (k, _, _) in enumerate(named) if k in (PO, POK)]
+    bound: Dict[int, Any] = {}
+    extra_pos = list(positionals[len(pos_params):])
+    if extra_pos and vp == "<none>":
+        return "binding-error"
+    for i, o in zip(pos_params, positionals):
+        bound[i] = o
+    names = {f"p{i}": i for i, (k, _, _) in enumerate(named) if k in (POK, KO)}
+    extra_kw = {}
+    for k, o in keywords.items():
+        if k in names:
+            if names[k] in bound:
+                return "binding-error"
+            bound[names[k]] = o
+        elif vk != "<none>":
+            extra_kw[k] = o
+        else:
+            return "binding-error"
+    for i, (k, d, _) in enumerate(named):
+        if i not in bound and not d:
+            return "binding-error"
+    for i, o in bound.items():
+        if not member(o, named[i][2]):
+            return "argument-not-in-declared-type"
+    if any(not member(o, vp) for o in extra_pos):
+        return "argument-not-in-declared-type"
+    if any(not member(o, vk) for o in extra_kw.values()):
+        return "argument-not-in-declared-type"
+    return "ok"
+
+
+def var_signatures() -> Iterator[Tuple[CParam, ...]]:
+    for first in ((), ((PO, False, "int"),), ((POK, False, "int"),), ((POK, True, "str"),)):
+        for vp in (None, "int", "str", "object"):
+            for ko in ((), ((KO, True, "int"),)):
+                for vk in (None, "int", "str"):
+                    if vp is None and vk is None:
+                        continue
+                    yield tuple(first) + (((VP, False, vp),) if vp else ()) + tuple(ko) + (((VK, False, vk),) if vk else ())
+
+
+def var_calls(params: Sequence[CParam], wide: bool = False) -> Iterator[Tuple[Tuple[Any, ...], Dict[str, Any]]]:
+    objects = (1, "a", 1.5) if wide else (1, "a")
+    kw_names = ("p0", "p1", "x", "args", "kwargs") if wide else ("p0", "x", "args")
+    for npos in range(0, 4):
+        for pos in itertools.product(objects, repeat=npos) if npos <= 2 else [(1, 1, 1), (1, "a", 1)]:
+            for r in range(0, 3):
+                for kws in itertools.combinations(kw_names, r):
+                    for vals in itertools.product(objects[:2], repeat=r):
+                        yield tuple(pos), dict(zip(kws, vals))
